@@ -273,6 +273,8 @@ def d4_kn(ctx):
                     return x
                 if e.id == gg:
                     return G
+                if e.id == ans:
+                    return sp.besselk(sp.Integer(nval), x)       # the forward value K_n(x)
                 raise Unrecognised('name %s' % e.id)
             if isinstance(e, ast.Constant):
                 return sp.nsimplify(e.value, rational=True)
@@ -357,6 +359,8 @@ SELFTEST = [
     ('epsilon-window', 'pyerrors/dirac.py', "if not (test_set <= set((1, 2, 3)) or test_set <= set((0, 1, 2))):", "if not (test_set <= set((1, 2, 3)) or test_set <= set((0, 1, 2, 3))):", 'C20-D3'),
     ('kn-sign', 'pyerrors/special.py', "lambda g: - g * 0.5 * (kn(np.abs(n - 1), x) + kn(n + 1, x))", "lambda g: g * 0.5 * (kn(np.abs(n - 1), x) + kn(n + 1, x))", 'C20-D4'),
     ('kn-order', 'pyerrors/special.py', "lambda g: - g * 0.5 * (kn(np.abs(n - 1), x) + kn(n + 1, x))", "lambda g: - g * 0.5 * (kn(np.abs(n - 1), x) + kn(n + 2, x))", 'C20-D4'),
+    ('kn-cotangent-partial', 'pyerrors/special.py', "lambda g: - g * 0.5 * (kn(np.abs(n - 1), x) + kn(n + 1, x))", "lambda g: - g * kn(np.abs(n - 1), x) - n / x * ans", 'C20-D4'),
+    ('benign-kn-recurrence', 'pyerrors/special.py', "lambda g: - g * 0.5 * (kn(np.abs(n - 1), x) + kn(n + 1, x))", "lambda g: - g * (kn(np.abs(n - 1), x) + n / x * ans)", 'BENIGN'),
     ('kn-slot', 'pyerrors/special.py', "defvjp(kn, None, lambda ans, n, x:", "defvjp(kn, lambda ans, n, x: lambda g: 0 * g, lambda ans, n, x:", 'C20-D4'),
     ('reexport-plain-scipy', 'pyerrors/special.py', "from autograd.scipy.special import erf, erfc, erfinv, erfcinv, logit, expit, logsumexp", "from autograd.scipy.special import erf, erfc, erfinv, erfcinv, logit, expit\nfrom scipy.special import logsumexp", 'C20-D5'),
     ('benign-sigma-rewrite', 'pyerrors/dirac.py', "g = 0.5 * (gamma[0] @ gamma[2] - gamma[2] @ gamma[0])", "g = gamma[0] @ gamma[2]", 'BENIGN'),
